@@ -813,3 +813,32 @@ def real_pool_check(tier, rng, rep, mods, ps, cov):
     cov["tlc"].append(dict(r.summary(), config="ConstPool_real", published=len(verdicts)))
     return {"modules": len(names), "groups": len(records), "groups_with_distinguishable_constants": bad, "unmapped_constants": unmapped,
             "states": r.generated, "distinct": r.distinct, "model_fidelity": fidelity}
+
+
+def replay(path, seed):
+    """Re-run the cases of a replay file: every source text in it is compiled from the working tree and
+    compared with CPython (exit 1 if any still differs)."""
+    with open(path) as f:
+        d = json.load(f)
+    groups = []
+    for c in d.get("cases", []):
+        if "src" in c:
+            groups.append([c["src"]])
+        elif "first" in c and "second" in c:
+            groups.append([c["first"], c["second"]])
+    if not groups:
+        print("nothing to replay in %s" % path)
+        return 2
+    bad = 0
+    for i, g in enumerate(groups):            # one module per case: the pool of a module is part of the case
+        mods = Modules()
+        mods.add("c09replay%d" % i, g, g)
+        obs, err = mods.build_and_run(2)["c09replay%d" % i]
+        for j, s in enumerate(g):
+            want = py_obs(s)
+            got = err if err else obs[j]
+            ok = got == want
+            bad += 0 if ok else 1
+            print("%s %s\n    cpython  %s\n    compiled %s" % ("ok  " if ok else "DIFF", s, json.dumps(want), json.dumps(got)[:600]))
+    print("VIOLATION property=%s replay=%s" % (PROP, path) if bad else "no difference left")
+    return 1 if bad else 0
